@@ -102,6 +102,12 @@ Fixpoint dec_cpol (fuel : nat) (ts : list N) : option (cpol * list N) :=
           | Some (subs, r') => Some (COr subs, r')
           | None => None
           end
+      | 12%N :: n :: r =>
+          (* or with explicit odds per branch: the model (like the code) reads no odds *)
+          match dec_many (fun ts => match ts with _ :: ts' => dec_cpol f ts' | [] => None end) (N.to_nat n) r with
+          | Some (subs, r') => Some (COr subs, r')
+          | None => None
+          end
       | _ => None
       end
   end.
